@@ -289,8 +289,9 @@ type MatrixOpts struct {
 	FromNs, StepNs int64
 	// rows with value 0 are dropped by design (Loki "zero eater")
 	ZeroDropped bool
-	// TsString: timestamps are rendered as JSON numbers of seconds
-	ValueKey string // "values" (matrix) or "value" (vector)
+	// ShapeOnly: the values are computed by the reader (Go-side aggregation): only the
+	// document shape, one object per series and the timestamp order are judged
+	ShapeOnly bool
 }
 
 func parsePoint(v any) (int64, string, bool) {
@@ -382,6 +383,9 @@ func ValidateMatrix(body []byte, ss []MatrixSeries, o MatrixOpts) []Finding {
 			if o.StepNs > 0 && (ts-o.FromNs)%o.StepNs != 0 {
 				out = append(out, Finding{"timestamp-loss", fmt.Sprintf("series %q: timestamp %d ns is not on the step grid %d+k*%d", key, ts, o.FromNs, o.StepNs)})
 			}
+			if o.ShapeOnly {
+				continue
+			}
 			// latest scripted row at or before ts
 			k := sort.Search(len(rows), func(i int) bool { return rows[i].TsNs > ts }) - 1
 			if k < 0 || ts-rows[k].TsNs > o.FillNs {
@@ -404,7 +408,7 @@ func ValidateMatrix(body []byte, ss []MatrixSeries, o MatrixOpts) []Finding {
 			}
 		}
 		for k, n := range hit {
-			if n == 0 {
+			if n == 0 && !o.ShapeOnly {
 				out = append(out, Finding{"row-missing", fmt.Sprintf("series %q: row (%d ns, %s) was returned by the database but no point carries its timestamp", key, rows[k].TsNs, fmtFloat(rows[k].V))})
 			}
 		}
